@@ -521,4 +521,99 @@ theorem wrapChunks_words (W ni ns : Nat) (first : Bool) (chunks : List Str)
     · apply sep_of_chain
       rw [happ]; exact hc
 
+/-- what `_split` guarantees about its first chunk (needed to push the chain property through the recursion) -/
+def HeadProp : List Str → Prop
+  | (d :: ds) :: _ => isTwWs d = true → WsC (d :: ds)
+  | [] :: _ => False
+  | [] => True
+
+theorem isTwWs_blank : isTwWs ' ' = true := by decide
+
+theorem splitChunks_chain : ∀ (t : Str), (∀ x ∈ t, isTwWs x = true → x = ' ') →
+    Chain (splitChunks t) ∧ HeadProp (splitChunks t)
+  | [], _ => by simp [splitChunks, Chain, HeadProp]
+  | c :: rest, hws => by
+    have ih := splitChunks_chain rest (fun x hx => hws x (List.mem_cons_of_mem _ hx))
+    have hc : isTwWs c = true → c = ' ' := hws c List.mem_cons_self
+    unfold splitChunks
+    split
+    · rename_i d ds more heq
+      rw [heq] at ih
+      obtain ⟨ihc, ihh⟩ := ih
+      simp only [HeadProp] at ihh
+      split
+      · rename_i hm
+        have hm' : isTwWs c = isTwWs d := by simpa using hm
+        have hhead : isTwWs c = true → WsC (c :: d :: ds) := by
+          intro h1 x hx
+          simp only [List.mem_cons] at hx
+          rcases hx with rfl | hx
+          · exact hc h1
+          · exact ihh (hm' ▸ h1) x (by simpa using hx)
+        refine ⟨?_, hhead⟩
+        cases more with
+        | nil => simp [Chain]
+        | cons b m =>
+          obtain ⟨_, hor, hrest⟩ := ihc
+          refine ⟨by simp, ?_, hrest⟩
+          rcases hor with hw | hw
+          · left
+            have hd : d = ' ' := hw d List.mem_cons_self
+            apply hhead
+            rw [hm', hd]; exact isTwWs_blank
+          · right; exact hw
+      · rename_i hm
+        have hm' : isTwWs c ≠ isTwWs d := by simpa using hm
+        refine ⟨⟨by simp, ?_, ihc⟩, ?_⟩
+        · cases h1 : isTwWs c with
+          | true =>
+            left; intro x hx
+            simp only [List.mem_singleton] at hx
+            subst hx; exact hc h1
+          | false =>
+            right; apply ihh
+            cases h2 : isTwWs d with
+            | true => rfl
+            | false => rw [h1, h2] at hm'; exact absurd rfl hm'
+        · simp only [HeadProp]
+          intro h1 x hx
+          simp only [List.mem_singleton] at hx
+          subst hx; exact hc h1
+    · rename_i more heq
+      rw [heq] at ih
+      exact absurd ih.2 (by simp [HeadProp])
+    · simp only [Chain, HeadProp]
+      refine ⟨by simp, ?_⟩
+      intro h1 x hx
+      simp only [List.mem_singleton] at hx
+      subst hx; exact hc h1
+
+theorem munge_ws (text : Str) : ∀ x ∈ munge text, isTwWs x = true → x = ' ' := by
+  intro x hx hw
+  have hflag : Gen.textwrapReplaceWhitespace = true := by decide
+  simp only [munge, hflag, if_true, List.mem_map] at hx
+  obtain ⟨y, _, hy⟩ := hx
+  by_cases h : isTwWs y = true
+  · simp [h] at hy; exact hy.symm
+  · simp [h] at hy; subst hy; exact absurd hw h
+
+/-- the exception, stated precisely: some chunk of the text (a word, or a run of blanks) is longer than what a
+    continuation line can hold -/
+def NoLongChunk (W ni ns : Nat) (text : Str) : Prop :=
+  ∀ c ∈ splitChunks (munge text), c.length ≤ W - ni ∧ c.length ≤ W - ns
+
+instance (W ni ns : Nat) (text : Str) : Decidable (NoLongChunk W ni ns text) := by
+  unfold NoLongChunk; infer_instance
+
+/-- C10_words — `TextWrapper.wrap` as MontePy configures it, with blank indents: for EVERY text and EVERY width,
+    if no chunk is over-long, the words MCNP reads from the wrapped lines (each continuation line read by
+    `Spec.Text.words`) are exactly the words of the unwrapped text, in order. -/
+theorem C10_words (W ni ns : Nat) (text : Str) (h : NoLongChunk W ni ns text) :
+    ((textwrapWrap W (blanks ni) (blanks ns) text).map words).flatten = words (munge text) := by
+  unfold textwrapWrap
+  rw [wrapChunks_words W ni ns true _ (splitChunks_chain _ (munge_ws text)).1 h, splitChunks_flatten]
+
+/-- non-vacuity of the hypothesis -/
+example : NoLongChunk 80 0 5 "1 0 -1 -2 imp:n=1 be-met.40t".toList := by decide
+
 end MontePyVerif.C10
